@@ -16,7 +16,7 @@
                         to move at least one byte -- reaches that state. *)
 From Coq Require Import List NArith.
 From Muscle Require Import Gen.Consts Gw.GwBase Gw.TransportProofs
-  Gw.FrameModel Gw.FrameProofs Gw.FrameDefault Gw.ZlibModel Gw.ZlibProofs Gw.TmplModel Gw.TmplProofs
+  Gw.FrameModel Gw.FrameProofs Gw.FrameDefault Gw.ZlibModel Gw.ZlibProofs Gw.TmplModel Gw.TmplProofs Gw.WsModel Gw.WsProofs Gw.WsDefault
   Gw.TextModel Gw.TextProofs Gw.RawModel Gw.RawProofs Gw.SlipModel Gw.SlipProofs.
 Import ListNotations.
 Local Open Scope N_scope.
@@ -229,6 +229,77 @@ Theorem C03_templating_collision_refuted :
   s_dlv (ToyCollide.run Toy.t_describes) = [ToyCollide.A; ToyCollide.B].
 Proof. exact ToyCollide.tm_collision_refuted. Qed.
 Print Assumptions C03_templating_collision_refuted.
+
+(* ====================================================================== WebSocket gateway pair after the
+   handshake, a MessageIOGateway (DEFAULT encoding) as slave on both ends; [client] = true: the sender is
+   the client (frames masked with the keys of [keys0], any four-byte keys), the receiver the server;
+   false: server -> client.  Domain: d_wfb bodies whose slave frame fits the 10 MB frame limit.
+   Modelled: CreateReplyFrame (7/16/64-bit lengths, mask), the header/payload receive loop, un-masking,
+   ExecuteReceivedFrame for binary/close/continuation/pong; NOT modelled: the HTTP handshake, TEXT and
+   PING frames.  The model follows the repaired key byte order (C03_websocket_mask_order_refuted). *)
+Theorem C03_websocket_prefix_safety : forall (client : bool) (max_in : N) (keys0 : list bytes),
+  Forall (fun k => length k = 4%nat) keys0 ->
+  forall evs : list (event bytes),
+  Forall (ev_wf (wsd_wfm max_in)) evs ->
+  exists tl, ev_msgs evs = s_dlv (sys_run ws_queue (ws_do_output bytes wsd_sflat client)
+                      (wr_do_input bytes (frecv unit) (wsd_sfeed max_in) (negb client)) (wsd_sys0 keys0) evs) ++ tl.
+Proof. exact wsd_prefix_safety. Qed.
+Print Assumptions C03_websocket_prefix_safety.
+
+Theorem C03_websocket_completeness : forall (client : bool) (max_in : N) (keys0 : list bytes),
+  Forall (fun k => length k = 4%nat) keys0 ->
+  forall evs : list (event bytes),
+  Forall (ev_wf (wsd_wfm max_in)) evs ->
+  wsd_rem client (s_snd (sys_run ws_queue (ws_do_output bytes wsd_sflat client)
+                      (wr_do_input bytes (frecv unit) (wsd_sfeed max_in) (negb client)) (wsd_sys0 keys0) evs)) = [] ->
+  s_pipe (sys_run ws_queue (ws_do_output bytes wsd_sflat client)
+                      (wr_do_input bytes (frecv unit) (wsd_sfeed max_in) (negb client)) (wsd_sys0 keys0) evs) = [] ->
+  s_dlv (sys_run ws_queue (ws_do_output bytes wsd_sflat client)
+                      (wr_do_input bytes (frecv unit) (wsd_sfeed max_in) (negb client)) (wsd_sys0 keys0) evs) = ev_msgs evs.
+Proof. exact wsd_completeness. Qed.
+Print Assumptions C03_websocket_completeness.
+
+Theorem C03_websocket_fair_completion : forall (client : bool) (max_in : N) (keys0 : list bytes),
+  Forall (fun k => length k = 4%nat) keys0 ->
+  forall (evs : list (event bytes)) (rs : list (list (event bytes))),
+  Forall (ev_wf (wsd_wfm max_in)) evs -> Forall round rs ->
+  (measure (wsd_rem client) (fun _ => 0%nat) (sys_run ws_queue (ws_do_output bytes wsd_sflat client)
+                      (wr_do_input bytes (frecv unit) (wsd_sfeed max_in) (negb client)) (wsd_sys0 keys0) evs) <= length rs)%nat ->
+  let st := (sys_run ws_queue (ws_do_output bytes wsd_sflat client)
+                      (wr_do_input bytes (frecv unit) (wsd_sfeed max_in) (negb client)) (wsd_sys0 keys0) (evs ++ concat rs)) in
+  quiet (wsd_rem client) st /\ s_dlv st = ev_msgs evs.
+Proof. exact wsd_fair_completion. Qed.
+Print Assumptions C03_websocket_fair_completion.
+
+(* any frame the sender builds -- any payload up to 10 MB (7-, 16- and 64-bit length forms), masked with any
+   four-byte key or unmasked -- is parsed back to its payload by the peer of the opposite role, whatever the
+   slave gateway is; and the split lemma for the frame parser *)
+Theorem C03_websocket_frame_roundtrip :
+  forall (Msg SR : Type) (sfeed : SR -> bytes -> SR * list Msg) (client : bool) (key data : bytes)
+         (sl sl' : SR) (outs : list Msg) (m0 : bytes),
+  data <> [] -> blen data <= ws_max_payload -> (client = true -> length key = 4%nat) ->
+  sfeed sl data = (sl', outs) ->
+  wr_feed Msg SR sfeed (negb client) (ws_idle SR m0 sl) (ws_frame client key WS_BINARY data) =
+  (ws_idle SR (if client then key else [0; 0; 0; 0]) sl', outs).
+Proof. exact ws_parse_frame. Qed.
+Print Assumptions C03_websocket_frame_roundtrip.
+
+Theorem C03_websocket_feed_split :
+  forall (Msg SR : Type) (sfeed : SR -> bytes -> SR * list Msg) (client : bool) (a : bytes) (st : wrecv SR) (b : bytes),
+  wr_feed Msg SR sfeed client st (a ++ b) =
+  let '(st1, o1) := wr_feed Msg SR sfeed client st a in
+  let '(st2, o2) := wr_feed Msg SR sfeed client st1 b in (st2, o1 ++ o2).
+Proof. exact wr_feed_app. Qed.
+Print Assumptions C03_websocket_feed_split.
+
+(* the finding: key written byte-reversed (old client behaviour) => the server un-masks to garbage *)
+Theorem C03_websocket_mask_order_refuted :
+  let key := [1; 2; 3; 4] in let data := [10; 20; 30; 40; 50] in
+  let echo (s : unit) (d : bytes) := (s, [d]) in
+  snd (wr_feed bytes unit echo false (wr_init tt) (ws_frame_old key WS_BINARY data)) = [[15; 21; 31; 45; 55]] /\
+  snd (wr_feed bytes unit echo false (wr_init tt) (ws_frame true key WS_BINARY data)) = [data].
+Proof. exact ws_mask_order_refuted. Qed.
+Print Assumptions C03_websocket_mask_order_refuted.
 
 (* ====================================================================== plain text gateway;
    Messages = lists of lines; lines free of CR, LF, NUL (empty lines allowed); terminator CRLF,
@@ -454,5 +525,22 @@ Proof.
   split; [exact Toy.H_trivial|]. split; [exact Toy.H_full|]. split; [exact Toy.H_templated|].
   split; [exact Toy.H_tid|]. split; [exact Toy.H_size|]. split.
   - repeat constructor; vm_compute; reflexivity.
+  - vm_compute. auto.
+Qed.
+
+(* a client -> server WebSocket run: two Messages, masked with two different keys, segmented reads *)
+Definition ex_ws_evs : list (event bytes) :=
+  [EQueue ex_m1; EQueue ex_m2; EOut 5 [3; 2]; EIn ex_big [1; 1; 1]; EOut ex_big [ex_big; ex_big; ex_big; ex_big];
+   EIn 9 [4; 5]; EIn ex_big [ex_big; ex_big; ex_big; ex_big; ex_big; ex_big; ex_big; ex_big; ex_big; ex_big]].
+
+Example C03_websocket_nonvacuous :
+  Forall (fun k => length k = 4%nat) [[1; 2; 3; 4]; [200; 0; 255; 7]] /\
+  Forall (ev_wf (wsd_wfm ex_big)) ex_ws_evs /\
+  let st := sys_run ws_queue (ws_do_output bytes wsd_sflat true)
+              (wr_do_input bytes (frecv unit) (wsd_sfeed ex_big) false) (wsd_sys0 [[1; 2; 3; 4]; [200; 0; 255; 7]]) ex_ws_evs in
+  wsd_rem true (s_snd st) = [] /\ s_pipe st = [] /\ s_dlv st = [ex_m1; ex_m2].
+Proof.
+  split; [repeat constructor|]. split.
+  - repeat constructor; vm_compute; try discriminate; reflexivity.
   - vm_compute. auto.
 Qed.
